@@ -281,7 +281,7 @@ fn fields_example(
             }
             // maybe add phantom data to struct / named composite enum
             let maybe_phantom = if needs_phantom_data {
-                quote!( __subxt_unused_type_params: ::core::marker::PhantomData )
+                quote!( __ignore: ::core::marker::PhantomData )
             } else {
                 quote!()
             };
